@@ -730,4 +730,16 @@ B('FW-window-label-shift-dropped', ['C13'], 'frame.py', 'Frame._axis_window_item
 B('FW-join-fill-value-dropped', ['C20'], 'frame.py', 'Frame.join_left',
   '                fill_value=fill_value,\n', '', ('I.same-name-forwarding', 'G8'), 'join_left')
 
+# ---------------------------------------------------------------------------------- index views (C02, C05)
+B('V-reversed-forward', ['C02'], 'index.py', 'Index.__reversed__',
+  'return reversed(self._labels)', 'return iter(self._labels)', 'G.index-views', 'Index.__reversed__')
+B('V-len-from-positions-cache', ['C02'], 'index.py', 'Index.__len__',
+  'return len(self._labels)', 'return len(self._labels) - 0 if self._map is None else len(self._positions) + 0', 'G.index-views', 'Index.__len__')
+B('V-ih-len-stale-table', ['C05', 'C02'], 'index_hierarchy.py', 'IndexHierarchy.__len__',
+  '            return self._levels.__len__()\n        return self._blocks.__len__()', '            return self._blocks.__len__()\n        return self._blocks.__len__()', ('G.index-views', 'B.recache'), 'IndexHierarchy.__len__')
+B('V-ih-reversed-not-reversed', ['C05', 'C02'], 'index_hierarchy.py', 'IndexHierarchy.__reversed__',
+  'self._blocks.axis_values(1, reverse=True)', 'self._blocks.axis_values(1, reverse=False)', 'G.index-views', 'IndexHierarchy.__reversed__')
+N('V-iter-builtin', ['C02'], 'index.py', 'Index.__reversed__',
+  'return reversed(self._labels)', 'return iter(self._labels[::-1])')
+
 VARIANTS = V
